@@ -101,6 +101,7 @@ type Plan struct {
 	Repeat   int               `json:"repeat"`
 	Async    []int             `json:"async"`   // provider ids that are Async in this injector
 	Latency  []int             `json:"latency"` // free mode: microseconds per call index
+	Yields   bool              `json:"yields"`  // gate the statement-level yield points of the instrumented band file too
 }
 
 type Event struct {
@@ -217,6 +218,26 @@ func Call(pid int, args ...uint32) (uint32, error) {
 		return base, &ProvErr{pid}
 	}
 	return base, nil
+}
+
+// YieldBase is added to the id of a yield point to form its waiter id.
+const YieldBase = 200000
+
+// Yield is called before every top-level statement of an instrumented emitted function
+// (main thread and goroutine bodies). In controlled mode with Plan.Yields it is a gate like
+// a provider call, which lets the controller interleave threads between two statements of
+// the emitted code (e.g. between close(ch) and the next assignment).
+func Yield(id int) {
+	s := current()
+	if s == nil || s.free || s.plain || !s.plan.Yields {
+		return
+	}
+	s.mu.Lock()
+	w := &waiter{p: YieldBase + id, seq: s.seq, gate: make(chan struct{})}
+	s.seq++
+	s.waiting = append(s.waiting, w)
+	s.mu.Unlock()
+	<-w.gate
 }
 
 // Val is invoked when an injected constant expression is evaluated.
@@ -452,6 +473,7 @@ func runCtl(t *testing.T, a *Adapter, p *Plan, rep int) (ex *Exec) {
 			for _, w := range st.waiting {
 				ex.Gated = append(ex.Gated, w.p)
 			}
+			// a thread held at a yield point at the moment of return is a live goroutine too
 			st.mu.Unlock()
 			sort.Ints(ex.Gated)
 			ex.Alive, _ = bandGoroutines(bubble)
@@ -486,7 +508,9 @@ func (s *state) release(w *waiter) {
 			break
 		}
 	}
-	s.events = append(s.events, Event{K: "release", P: w.p})
+	if w.p < YieldBase {
+		s.events = append(s.events, Event{K: "release", P: w.p})
+	}
 	s.mu.Unlock()
 	close(w.gate)
 }
